@@ -92,6 +92,8 @@ const (
 	OToReal
 	OToInt // floor
 	OApp   // uninterpreted function application
+	OBV2Nat
+	OInt2BV // A = width
 )
 
 var opNames = map[Op]string{
@@ -147,7 +149,7 @@ func mk(t *Term) *Term {
 		}
 	case OVar, OApp:
 		sb.WriteString(t.Name)
-	case OExtract, OZeroExt, OSignExt:
+	case OExtract, OZeroExt, OSignExt, OInt2BV:
 		fmt.Fprintf(&sb, "%d:%d", t.A, t.B)
 	}
 	k := sb.String()
@@ -973,6 +975,10 @@ func (t *Term) Head(ref func(*Term) string) string {
 		return fmt.Sprintf("((_ zero_extend %d) %s)", t.A, ref(t.Args[0]))
 	case OSignExt:
 		return fmt.Sprintf("((_ sign_extend %d) %s)", t.A, ref(t.Args[0]))
+	case OBV2Nat:
+		return fmt.Sprintf("(bv2nat %s)", ref(t.Args[0]))
+	case OInt2BV:
+		return fmt.Sprintf("((_ int2bv %d) %s)", t.A, ref(t.Args[0]))
 	case OApp:
 		if len(t.Args) == 0 {
 			return t.Name
@@ -1060,4 +1066,131 @@ func HasApp(t *Term) bool {
 		return false
 	}
 	return rec(t)
+}
+
+// VarRange records declared ranges of Int variables (for Bounds).
+var VarRange = map[*Term][2]*big.Int{}
+
+// Bounds returns a conservative interval of an Int-sorted term, if one is cheaply known.
+func Bounds(t *Term, memo map[*Term]*[2]*big.Int) (lo, hi *big.Int, ok bool) {
+	if t.Sort.K != KInt {
+		return nil, nil, false
+	}
+	if r, seen := memo[t]; seen {
+		if r == nil {
+			return nil, nil, false
+		}
+		return r[0], r[1], true
+	}
+	set := func(l, h *big.Int) (*big.Int, *big.Int, bool) {
+		memo[t] = &[2]*big.Int{l, h}
+		return l, h, true
+	}
+	fail := func() (*big.Int, *big.Int, bool) {
+		memo[t] = nil
+		return nil, nil, false
+	}
+	switch t.Op {
+	case OConst:
+		if !t.N.IsInt() {
+			return fail()
+		}
+		return set(t.N.Num(), t.N.Num())
+	case OVar:
+		if r, ok := VarRange[t]; ok {
+			return set(r[0], r[1])
+		}
+		return fail()
+	case OAdd, OSub, OMul:
+		al, ah, ok1 := Bounds(t.Args[0], memo)
+		bl, bh, ok2 := Bounds(t.Args[1], memo)
+		if !ok1 || !ok2 {
+			return fail()
+		}
+		switch t.Op {
+		case OAdd:
+			return set(new(big.Int).Add(al, bl), new(big.Int).Add(ah, bh))
+		case OSub:
+			return set(new(big.Int).Sub(al, bh), new(big.Int).Sub(ah, bl))
+		default:
+			c := []*big.Int{new(big.Int).Mul(al, bl), new(big.Int).Mul(al, bh), new(big.Int).Mul(ah, bl), new(big.Int).Mul(ah, bh)}
+			l, h := c[0], c[0]
+			for _, x := range c[1:] {
+				if x.Cmp(l) < 0 {
+					l = x
+				}
+				if x.Cmp(h) > 0 {
+					h = x
+				}
+			}
+			return set(l, h)
+		}
+	case ONeg:
+		al, ah, ok1 := Bounds(t.Args[0], memo)
+		if !ok1 {
+			return fail()
+		}
+		return set(new(big.Int).Neg(ah), new(big.Int).Neg(al))
+	case OIte:
+		al, ah, ok1 := Bounds(t.Args[1], memo)
+		bl, bh, ok2 := Bounds(t.Args[2], memo)
+		if !ok1 || !ok2 {
+			return fail()
+		}
+		l, h := al, ah
+		if bl.Cmp(l) < 0 {
+			l = bl
+		}
+		if bh.Cmp(h) > 0 {
+			h = bh
+		}
+		return set(l, h)
+	case OMod:
+		// 0 <= mod < |b|
+		bl, bh, ok2 := Bounds(t.Args[1], memo)
+		if !ok2 {
+			return fail()
+		}
+		m := new(big.Int).Abs(bl)
+		if x := new(big.Int).Abs(bh); x.Cmp(m) > 0 {
+			m = x
+		}
+		return set(big.NewInt(0), m)
+	case OIDiv:
+		al, ah, ok1 := Bounds(t.Args[0], memo)
+		if !ok1 {
+			return fail()
+		}
+		m := new(big.Int).Abs(al)
+		if x := new(big.Int).Abs(ah); x.Cmp(m) > 0 {
+			m = x
+		}
+		m = new(big.Int).Add(m, big.NewInt(1))
+		return set(new(big.Int).Neg(m), m)
+	}
+	return fail()
+}
+
+// BV2Nat is the unsigned value of a bit-vector as an Int.
+func BV2Nat(a *Term) *Term {
+	if a.Op == OConst {
+		return IntConstBig(new(big.Int).SetUint64(a.U))
+	}
+	if a.Op == OInt2BV {
+		// only exact when the argument is known to fit; keep symbolic
+	}
+	return mk(&Term{Op: OBV2Nat, Sort: Int, Args: []*Term{a}})
+}
+
+// Int2BV is the w-bit two's complement truncation of an Int.
+func Int2BV(w int, a *Term) *Term {
+	if a.Op == OConst && a.N.IsInt() {
+		m := new(big.Int).Lsh(big.NewInt(1), uint(w))
+		v := new(big.Int).Mod(a.N.Num(), m)
+		return BVConst(w, v.Uint64())
+	}
+	if a.Op == OBV2Nat && a.Args[0].Sort.W == w {
+		return a.Args[0]
+	}
+	return mk(&Term{Op: OInt2BV, Sort: BV(w), Args: []*Term{a}, A: w})
 }
